@@ -1,6 +1,7 @@
 SPECIFICATION TSpec
 INVARIANT RanksOK
 INVARIANT BoundsOK
+INVARIANT KnownOK
 INVARIANT ClientOK
 CONSTRAINT Finished
 POSTCONDITION PostOK
